@@ -12,7 +12,12 @@ fn skip_spaces(scanner: &mut Scanner) -> ParseResult<()> {
             ' ' => {}
             '\\' => match scanner.read() {
                 '\n' => {}
-                _ => return scanner.parse_error("invalid backslash escape"),
+                _ => {
+                    // Not a line continuation: the backslash starts a path.
+                    scanner.back();
+                    scanner.back();
+                    break;
+                }
             },
             _ => {
                 scanner.back();
